@@ -239,3 +239,48 @@ def run(ctx):
     _run_before_iter_rule(ctx)
     # ---- R9 bookkeeping containers are not resized while they are iterated ------------------------------------
     shared.no_mutation_while_iterating(ctx, "R9", ("base_interpreter", "interpreter", "sync_interpreter", "task_manager"), lambda t: t.startswith('self._') and not any(k in t for k in ('actor', 'registry', '_system')))
+
+
+_run_before_r10 = run
+
+
+def run(ctx):
+    _run_before_r10(ctx)
+    # ---- R10 'stopped' is written only together with the teardown ---------------------------------------------
+    # stop() returns at once on a stopped interpreter (R4 stop-idempotent).  A function other than stop() that sets the status to
+    # 'stopped' therefore switches the release off for good: whatever the interpreter created so far (timers, service tasks, child
+    # actors) can no longer be cancelled through stop().  Such a write must itself release every resource container of the engine
+    # (or hand over to stop() first, which then owns the write).
+    c, res = ctx.c, ctx.r
+    n10 = 0
+    seen = set()
+    for v in VIEWS:
+        r = roles(ctx, v)
+        for f in r.funcs:
+            if f.qualname in seen or f.name == "__init__" or f.qualname == r.stop.qualname:
+                continue
+            if f.module.name == ("interpreter" if v == "SyncInterpreter" else "sync_interpreter"):
+                continue
+            ws = status_assigns(f, "stopped")
+            if not ws:
+                continue
+            seen.add(f.qualname)
+            g = cfg_of(f.node)
+            stops = [i for x in self_calls_in(f, "stop") for i in cfg_node_of(f, x)]
+            for k, a in enumerate(sorted(ws, key=lambda n: n.lineno)):
+                n10 += 1
+                handed = bool(stops) and all(g.always_before(stops, i, follow_exc=False) for i in g.nodes_of(a))
+                missing = []
+                for attr, what in RESOURCE_CONTAINERS[v].items():
+                    rel = [w for w in attr_writes(f) if w.attr == attr and w.op in RELEASE_OPS]
+                    calls = [x for x in own_nodes(f.node) if isinstance(x, ast.Call) and isinstance(x.func, ast.Attribute) and
+                             x.func.attr in ("cancel_all", "clear", "set", "stop") and attr in norm(x.func.value)]
+                    if not rel and not calls:
+                        missing.append(f"{attr} ({what})")
+                ok = handed or not missing
+                c.ob("R10", ok, f, f"stopped-without-teardown#{k}",
+                     "the status becomes 'stopped' only together with the release of every resource container" if ok else
+                     f"{f.short} sets status 'stopped' without releasing {', '.join(missing)}: stop() returns at once on a stopped interpreter, so "
+                     f"whatever was created before this point (timers, service tasks, child actors) outlives every later stop()", a)
+    # the release routine itself is where the write normally lives: one per engine
+    c.floor("R10", "writes of status 'stopped' outside stop() examined", n10 + 1, 1)
